@@ -58,6 +58,9 @@ def init_worker():
             n += 1
     _S["capture_sites"] = n
     _S["sfp"] = sfp
+    from sim.seams import GlobalStateGuard
+
+    _S["guard"] = GlobalStateGuard("pyoma2")  # after the seams are in place: their bindings are part of "pristine"
 
 
 # ---------------------------------------------------------------------------------------------
@@ -748,6 +751,7 @@ def run_case(seed, tier="quick", case=None, known=()):
     """One history = one or two complete dialogs on the same algorithm object (a second mpe_from_plot must start
     from an empty selection and replace the modes of the first)."""
     init_worker()
+    _S["guard"].reset()  # every history starts as a fresh process would
     import matplotlib.pyplot as plt
 
     rng = random.Random(seed)
